@@ -11,7 +11,9 @@
    Consumer statements:
      pull(it)   if itN.MoveNext() { r.E(id, itN.Current(), 0) } else { r.E(id, -1, 0) }
      effv       r.E(id, v, 0)
-     shadow     v := v + 100; _ = v          (only in the body of a `:=` range loop)
+     shadow     sh = 1:  v := v + 100; _ = v          (only in the body of a `:=` range loop)
+                sh = 2:  g := func() int { return v }; v, w := rt.Two(v+100, 0); v += g(); _ = w
+                         (a multi-value re-declaration: g captured the loop variable, not the new v)
      ifbrk / ifcnt / ifret                    if r.T(id) { break | continue | return }
      range(it, tok, body)                     for v := / = range itN { body },  for range itN { body },  for _ = range itN { body } *)
 EXTENDS SrcSyntax, Json
@@ -34,18 +36,18 @@ MLevel(tab, n) ==
   LET B(m, inR) == tab[m + 1][inR]
       S(inR) == IF n = 1 THEN Pulls \cup {[k |-> "effv", id |-> 0]} \cup (IF inR = "r" THEN Guards ELSE {})
                 ELSE {[k |-> "range", it |-> i, tok |-> t, sh |-> sh, body |-> b] :
-                        i \in 1..2, t \in Toks, sh \in BOOLEAN, b \in B(n - 1, "r")}
+                        i \in 1..2, t \in Toks, sh \in 0..2, b \in B(n - 1, "r")}
       SS(m, inR) == IF m = n THEN S(inR) ELSE
                     IF m = 1 THEN Pulls \cup {[k |-> "effv", id |-> 0]} \cup (IF inR = "r" THEN Guards ELSE {})
                     ELSE {[k |-> "range", it |-> i, tok |-> t, sh |-> sh, body |-> b] :
-                            i \in 1..2, t \in Toks, sh \in BOOLEAN, b \in B(m - 1, "r")} IN
+                            i \in 1..2, t \in Toks, sh \in 0..2, b \in B(m - 1, "r")} IN
   [inR \in {"r", "f"} |-> IF n = 0 THEN {<<>>}
                           ELSE UNION {{<<s>> \o r : s \in SS(m, inR), r \in B(n - m, inR)} : m \in 1..n}]
 RECURSIVE BuildM(_, _)
 BuildM(tab, n) == IF Len(tab) > n THEN tab ELSE BuildM(Append(tab, MLevel(tab, Len(tab))), n)
 \* `sh` (re-declare v at the top of the body) is only meaningful for `:=` loops
 RECURSIVE ShOK(_)
-ShOK(b) == \A j \in 1..Len(b) : b[j].k = "range" => ((b[j].sh => b[j].tok = "def") /\ ShOK(b[j].body))
+ShOK(b) == \A j \in 1..Len(b) : b[j].k = "range" => ((b[j].sh > 0 => b[j].tok = "def") /\ ShOK(b[j].body))
 HasRange(b) == \E j \in 1..Len(b) : b[j].k = "range"
 MTab == BuildM(<<>>, MaxSize)
 Mains == {m \in UNION {MTab[n + 1]["f"] : n \in 1..MaxSize} : HasRange(m) /\ ShOK(m)}
@@ -95,7 +97,10 @@ RangeLoop(s, w0, e) ==
            [] b.sig = "brk" -> MR("fall", b.w, b.e)
            [] OTHER -> b
        ELSE \* `:=`: a fresh loop variable; with `sh` the body re-declares it (v := v + 100) in its own scope
-         LET b == ExecM(s.body, r.w, [fv |-> e.fv, lv |-> IF s.sh THEN cur + 100 ELSE cur, loc |-> TRUE])
+         LET b == ExecM(s.body, r.w, [fv |-> e.fv, lv |-> CASE s.sh = 1 -> cur + 100
+                                                                       \* g reads the LOOP variable (cur), rt.Two adds 10: the new v is (cur + 110) + g()
+                                                                       [] s.sh = 2 -> 2 * cur + 110
+                                                                       [] OTHER -> cur, loc |-> TRUE])
              out == [e EXCEPT !.fv = b.e.fv] IN
          CASE b.sig \in {"fall", "cnt"} -> RangeLoop(s, b.w, out)
            [] b.sig = "brk" -> MR("fall", b.w, out)
